@@ -580,8 +580,13 @@ GenerateMessageDescriptor(google::protobuf::io::Printer* printer, bool gen_init)
 
     if (!optimize_code_size) {
       std::vector<NameIndex> field_indices;
+      const ProtobufCFileOptions file_opt = descriptor_->file()->options().GetExtension(pb_c_file);
       for (unsigned i = 0; i < descriptor_->field_count(); i++) {
-        field_indices.push_back({ i, sorted_fields[i]->name() });
+        /* sort by the name the field descriptor carries (see GenerateDescriptorInitializerGeneric) */
+        if (file_opt.use_oneof_field_name() && sorted_fields[i]->containing_oneof() != NULL)
+          field_indices.push_back({ i, sorted_fields[i]->containing_oneof()->name() });
+        else
+          field_indices.push_back({ i, sorted_fields[i]->name() });
       }
       qsort(&field_indices[0],
             field_indices.size(),
